@@ -106,6 +106,19 @@ def leavesL : List Val → List FileObj
   | c :: cs => leaves c ++ leavesL cs
 end
 
+mutual
+/-- Structural equality (decidable equality is not derivable for the nested type). -/
+def beqVal : Val → Val → Bool
+  | .atom a, .atom b => a == b
+  | .file x, .file y => x == y
+  | .node i k cs, .node j k' ds => i == j && k == k' && beqList cs ds
+  | _, _ => false
+def beqList : List Val → List Val → Bool
+  | [], [] => true
+  | c :: cs, d :: ds => beqVal c d && beqList cs ds
+  | _, _ => false
+end
+
 /-- The shape of a value: container structure and non-file leaves; file leaves and identities erased. -/
 def shape (v : Val) : Val := mapVal (fun _ => default) v
 
@@ -173,7 +186,8 @@ abbrev Prim := CopyArgs → FileObj → Except Err CopyOut
 /-! ### `copy_nested_files` -/
 
 /-- `supported -= symlink` when any path is on CIFS; `supported -= hardlink` when not all paths are on the mount of
-    `dest_dir`.  `get` is the mount lookup (`getMountStr` on the pinned tree, `getMountComp` after a repair of D22). -/
+    `dest_dir`.  `get` is the mount lookup (`getMountComp`: whole path components, the working tree since the repair of D22;
+    `getMountStr` is the pinned commit's `str.startswith`).  All theorems hold for any `get`. -/
 def reduceSupported (get : Table → Str → Mount.Entry) (tbl : Table) (destDir : Path) (paths : List Path)
     (supported : Mode) : Mode :=
   let s1 := if paths.any (fun p => Mount.onCifs get tbl p) then supported.sub Mode.symlink else supported
@@ -201,14 +215,19 @@ structure St where
   ex : List Path
   nextId : Nat
 
+/-- The arguments of `fileset.copy(dest_dir=dest_dir, supported_modes=supported, avoid_clashes=clashes_to_avoid,
+    **kwargs)` inside `copy_fileset`. -/
+def argsOf (env : Env) (st : St) (x : FileObj) : CopyArgs :=
+  { destDir := env.destDir, mode := env.mode, coll := env.coll,
+    supported := reduceSupported env.get env.tbl env.destDir x.paths env.supported,
+    clashes := st.clashes, ex := st.ex, fresh := st.nextId }
+
 /-- The closure `copy_fileset`. -/
 def copyFileset (P : Prim) (env : Env) (st : St) (x : FileObj) : Except Err (FileObj × St) :=
   match st.memo.find? (fun e => e.key == x.key) with
   | some e => .ok (e.dst, st)
   | none =>
-    let supported := reduceSupported env.get env.tbl env.destDir x.paths env.supported
-    match P { destDir := env.destDir, mode := env.mode, coll := env.coll, supported := supported,
-              clashes := st.clashes, ex := st.ex, fresh := st.nextId } x with
+    match P (argsOf env st x) x with
     | .error e => .error e
     | .ok r =>
       .ok (r.dst, { memo := st.memo ++ [⟨x.key, x, r.dst, r.op⟩], clashes := r.clashes, ex := r.ex,
@@ -257,6 +276,11 @@ structure Field where
   coll : Nat        -- `fld.copy_collation`
   value : Val
 
+/-- The environment `Job.inputs` builds for field `f`: `dest_dir=self.cache_dir, mode=fld.copy_mode,
+    collation=fld.copy_collation, supported_modes=self.SUPPORTED_COPY_MODES`. -/
+def stageEnv (get : Table → Str → Mount.Entry) (tbl : Table) (jobDir : Path) (supported : Mode) (f : Field) : Env :=
+  { get := get, tbl := tbl, destDir := jobDir, mode := f.mode, coll := f.coll, supported := supported }
+
 /-- Each field gets its own `copy_nested_files` call with `clashes_to_avoid` left at its default: a NEW set (and a new
     memo) per field.  Only the file system (`ex`) is shared. -/
 def stageInputs (P : Prim) (get : Table → Str → Mount.Entry) (tbl : Table) (jobDir : Path) (supported : Mode) :
@@ -264,8 +288,7 @@ def stageInputs (P : Prim) (get : Table → Str → Mount.Entry) (tbl : Table) (
   | [], ex, n => .ok ⟨[], [], [], ex, n⟩
   | fld :: fs, ex, n =>
     if fld.truthy && fld.typed then
-      match copyNested P { get := get, tbl := tbl, destDir := jobDir, mode := fld.mode, coll := fld.coll,
-                           supported := supported } none ex n fld.value with
+      match copyNested P (stageEnv get tbl jobDir supported fld) none ex n fld.value with
       | .error e => .error e
       | .ok (v', st) =>
         match stageInputs P get tbl jobDir supported fs st.ex st.nextId with
